@@ -14,12 +14,15 @@ case $FL in
   cov)   CC=gcc;   CF="-O0 -g --coverage" ;;
   msan)  CC=clang; CF="-O1 -g -fno-omit-frame-pointer -fsanitize=memory -fsanitize-memory-track-origins" ;;
   tsan)  CC=gcc;   CF="-O1 -g -fno-omit-frame-pointer -fsanitize=thread" ;;
+  fuzz)  CC=clang; CF="-O1 -g -fno-omit-frame-pointer -fsanitize=fuzzer-no-link,address,undefined -fno-sanitize=pointer-overflow,float-cast-overflow -fno-sanitize-recover=all" ;;
   *) echo "unknown flavour $FL" >&2; exit 2 ;;
 esac
 $CC $CF $DEFS -I"$R" -c "$R/cJSON.c" -o "$OUT/$FL-cJSON.o" &
 $CC $CF $DEFS -I"$R" -c "$R/cJSON_Utils.c" -o "$OUT/$FL-cJSON_Utils.o" &
 wait
-if [ "$FL" = tsan ]; then
+if [ "$FL" = fuzz ]; then
+  $CC -O1 -g -fno-omit-frame-pointer -fsanitize=fuzzer,address,undefined -fno-sanitize=pointer-overflow,float-cast-overflow -fno-sanitize-recover=all -I"$R" -I"$D" "$D/cjv_fuzz.c" "$OUT/$FL-cJSON.o" "$OUT/$FL-cJSON_Utils.o" -lm -o "$OUT/cjv_$FL"
+elif [ "$FL" = tsan ]; then
   $CC $CF -I"$R" -I"$D" "$D/cjv_tsan.c" "$D/cjv_gen.c" "$OUT/$FL-cJSON.o" "$OUT/$FL-cJSON_Utils.o" -lm -lpthread -o "$OUT/cjv_$FL"
 else
   $CC $CF -I"$R" -I"$D" "$D/cjv_mon.c" "$D/cjv_vm.c" "$D/cjv_bat.c" "$OUT/$FL-cJSON.o" "$OUT/$FL-cJSON_Utils.o" $WRAP -lm -lpthread -o "$OUT/cjv_$FL"
